@@ -115,6 +115,8 @@ package actor
 //@            fresh(h.ctx.behaviorStack.behaviors[0])
 //@   ensures  forall k mathint :: k != 2 * tagof("*vivid.OnLaunch") + 1 ==> gcount(toldn, k) == old(gcount(toldn, k))
 //@   ensures  forall t mathint :: t != tagof("ves.ActorRestartedEvent") && t != tagof("ves.ActorMailboxResumedEvent") ==> gcount(published, t) == old(gcount(published, t))
+// a failed restart leaves the state word alone (killed): the zombie is a dead actor that still owns its reference
+//@   ensures  old(h.shouldContinue) && old(h.restarting) && h.ctx.zombie && !old(h.ctx.zombie) ==> h.ctx.state == old(h.ctx.state)
 // in BOTH outcomes (restarted, zombie) the mailbox is resumed exactly once; a zombie tells nobody
 //@   ensures  old(h.shouldContinue) && old(h.restarting) ==> gcount(resumes, h.ctx.mailbox) == old(gcount(resumes, h.ctx.mailbox)) + 1
 //@   ensures  old(h.shouldContinue) && old(h.restarting) && h.ctx.zombie && !old(h.ctx.zombie) ==>
@@ -298,10 +300,13 @@ package actor
 // the child table is empty and the state was `killing` (or the actor is a zombie being released)
 // (a zombie - an actor whose restart hook failed - had its jobs cleared by the restart that made it one, and runs
 // no user code afterwards: zombieNoJobs is its invariant, kept by this function)
-//@ pure zombieNoJobs(c *Context) bool = c.zombie ==> len(c.scheduler.jobKeys) == 0
+//@ pure zombieNoJobs(c *Context) bool = c.zombie ==> len(c.scheduler.jobKeys) == 0 && c.state == 2
 //@ func (*Context).onKilled
 //@   requires ctxwf(c) && message != nil && c.envelop != nil && schedok(c) && zombieNoJobs(c)
 //@   requires forall p string :: p in c.watchers ==> c.watchers[p] != nil
+// termination is reported ONCE per actor: released1 is an invariant of every context (see its definition)
+//@   requires released1(c)
+//@   ensures  released1(c)
 //@   modifies c.children[*], c.state, c.envelop, c.actor, c.behaviorStack.behaviors, c.zombie, c.restarting, c.scheduler.jobKeys[*], gmap(told), gmap(toldn), gmap(tells), gmap(unregistered), gmap(unsuball), gmap(published), gmap(resumes), gmap(deleted)
 // C20: an actor that is released (or restarted) leaves no scheduled job behind
 //@   ensures  gcount(unregistered, c) > old(gcount(unregistered, c)) ==> len(c.scheduler.jobKeys) == 0
@@ -338,9 +343,9 @@ package actor
 //@   ensures  ghost(calls_behavior) == old(ghost(calls_behavior)) + 1
 
 // an actor that has been released (registry entry removed) stays released: it is not a zombie any more and it is
-// not running, so no later kill can run the clean-up again
+// its state is killed, so no later kill can run the clean-up again
 //@ pure watchersOK(c *Context) bool = forall p string :: p in c.watchers ==> c.watchers[p] != nil
-//@ pure released1(c *Context) bool = gcount(unregistered, c) <= 1 && (gcount(unregistered, c) == 1 ==> !c.zombie && c.state != 0)
+//@ pure released1(c *Context) bool = 0 <= gcount(unregistered, c) && gcount(unregistered, c) <= 1 && (gcount(unregistered, c) == 1 ==> !c.zombie && c.state == 2)
 
 // doKill: ONE OnKill to every child, with the same poison flag, then the kill chain
 //@ func (*Context).doKill
@@ -525,7 +530,7 @@ package actor
 //@ pure foreignAtRoot(c *Context, e vivid.Envelop) bool = c.parent == nil && typeis(envReceiver(e), "*actor.Ref") && !nilptr(envReceiver(e)) &&
 //@     (refPath(envReceiver(e)) != c.ref.path || refAddress(envReceiver(e)) != c.ref.address)
 //@ func (*Context).HandleEnvelop
-//@   requires ctxwf(c) && watchersOK(c) && envelop != nil && ctxwf(c.system.Context) && schedok(c) && zombieNoJobs(c)
+//@   requires ctxwf(c) && watchersOK(c) && envelop != nil && ctxwf(c.system.Context) && schedok(c) && zombieNoJobs(c) && released1(c)
 //@   requires len(c.behaviorStack.behaviors) > 0 && c.behaviorStack.behaviors[len(c.behaviorStack.behaviors) - 1] != nil
 //@   requires !nilptr(envMessage(envelop)) && envSender(envelop) != nil && !nilptr(envSender(envelop))
 //@   requires typeis(envMessage(envelop), "*actor.supervisionContext") ==> superviseOK(c, unboxed(envMessage(envelop), "*actor.supervisionContext"))
